@@ -1,5 +1,5 @@
 #!/bin/sh
-# c18-fixcheck2.sh <patch.diff> <regex of C18 finding keys to drop> [check args]: like bin/mutcheck, plus removal of finding lines
+# fixcheck.sh <fix.diff> <regex of C18 finding keys to drop> [check args]: bin/mutcheck plus removal of the named finding lines in the scratch copy; rc=0 means the check passes with the fix and without its finding line (fix-toggle-both.diff = the two toggle patches together, fix-all.diff = all five)
 PATCH="$1"; DROP="$2"; shift 2
 TAG="c18fd-$$"; WT=/tmp/$TAG-repo; VF=/tmp/$TAG-verif
 cleanup() { git -C /repo worktree remove --force "$WT" >/dev/null 2>&1; rm -rf "$WT" "$VF"; git -C /repo worktree prune; }
